@@ -212,19 +212,15 @@ Definition ex_three : expr :=
                    (EAbs 13 [14] (EApp 16 (EApp 15 (EOp 21 6) (EVar 14) false) (EVar 14) false)) true)
        (ESrc 3) false.
 Definition ex_run (ob : sched) : list triple :=
-  match add_expr_s (add_from_tr false) ob ex_three None g_empty with
-  | Some (_, s) => g_tr s | None => [] end.
+  store_of (add_expr_s (add_from_tr false) ob ex_three None g_empty).
 Example C19_ex_orders_differ :
   ex_run objs <> ex_run objs_rev /\ length (ex_run objs) = 72 /\ length (ex_run objs_rev) = 72.
 Proof. split; [vm_compute; discriminate | split; vm_compute; reflexivity]. Qed.
 Example C19_ex_same_set : seteq (ex_run objs) (ex_run objs_rev).
 Proof.
   destruct C19_ex_schedules as (H1 & H2 & H3 & H4).
-  pose proof (proj1 (C19_add_expr_any_schedule objs objs_rev H1 H2 ex_three None g_empty g_empty H4 H3)) as R.
-  unfold ex_run. unfold same_outcome in R.
-  destruct (add_expr_s (add_from_tr false) objs ex_three None g_empty) as [[n s]|];
-    destruct (add_expr_s (add_from_tr false) objs_rev ex_three None g_empty) as [[n' s']|];
-    try contradiction; [apply R | apply seteq_refl].
+  apply same_outcome_store.
+  exact (proj1 (C19_add_expr_any_schedule objs objs_rev H1 H2 ex_three None g_empty g_empty H4 H3)).
 Qed.
 
 (* a history and a permutation of it *)
@@ -247,7 +243,7 @@ Qed.
    complete and list the 35 canonical types in different orders. *)
 Definition exH : hier := mk_hier [(6, 5); (7, 6)] [(9, [true]); (10, [true; false])].
 Definition exOps : list nat := [5; 6; 7; 8; 9; 10].
-Definition exListed : list ty := [TOp 5 []; TOp 10 [TOp 9 [TOp 6 []]; TOp 7 []]].
+Definition exListed : list ty := [Ty.TOp 5 []; Ty.TOp 10 [Ty.TOp 9 [Ty.TOp 6 []]; Ty.TOp 7 []]].
 Definition rev_push : ty -> list ty -> list ty :=
   fun x seen => rev (can_push exH (rev exOps) true true x seen).
 Definition exC1 := expand_canon_s (can_push exH exOps true true) 2000 (rev exListed) exListed.
@@ -275,8 +271,8 @@ Qed.
 
 (* a workflow with two applications, listed in either order *)
 Definition ex_wf (apps : list tapp) : wflow := mkWf [100] apps.
-Definition ex_a1 : tapp := mkApp 101 (TApp 1 (TOp 0 7) (TIn 0) false) [100] [50].
-Definition ex_a2 : tapp := mkApp 102 (TApp 3 (TApp 2 (TOp 4 8) (TIn 0) false) (TIn 1) false) [101; 100] [51; 52].
+Definition ex_a1 : tapp := mkApp 101 (TApp 1 (Workflow.TOp 0 7) (TIn 0) false) [100] [50].
+Definition ex_a2 : tapp := mkApp 102 (TApp 3 (TApp 2 (Workflow.TOp 4 8) (TIn 0) false) (TIn 1) false) [101; 100] [51; 52].
 Example C19_ex_workflow :
   Permutation (w_apps (ex_wf [ex_a1; ex_a2])) (w_apps (ex_wf [ex_a2; ex_a1])) /\
   NoDup (map a_out (w_apps (ex_wf [ex_a1; ex_a2]))) /\
